@@ -268,6 +268,25 @@ func refusedExtension(s *hx.Schema) string {
 			fmt.Fprintf(&b, "extend input %s { zq9: Int }\n", td.Name)
 		}
 	}
+	// operation types the implied schema does not have yet arrive with the refused document and are
+	// named by an extension of the schema in it; input defaults change how stored values coerce
+	if s.Roots == nil {
+		for _, op := range []string{"Mutation", "Subscription"} {
+			if s.Type(op) == nil && s.ExtRoots[strings.ToLower(op)] == "" {
+				fmt.Fprintf(&b, "type %s { zqGone: Int }\n", op)
+				other := map[string]string{"Mutation": "subscription", "Subscription": "mutation"}[op]
+				if s.RootType(other) == "" {
+					fmt.Fprintf(&b, "type ZqOp%s { a: Int }\nextend schema { %s: ZqOp%s }\n", op, other, op)
+				}
+				break
+			}
+		}
+	}
+	for _, td := range s.Types {
+		if td.Kind == hx.KInput {
+			fmt.Fprintf(&b, "extend input %s { zq7: Int = 5 }\n", td.Name)
+		}
+	}
 	b.WriteString("interface ZqI { a: Int }\ntype Zq9 implements ZqI { b: Int }\n")
 	return b.String()
 }
